@@ -39,6 +39,13 @@ of the equivalent API call is what the texts denote by the documented format (va
 generator; the CLI's files — anywhere in the workspace, not only below `out/` — and status are compared with the API run on that
 dictionary, and the model's reading of the texts (`foldOptions`) with the dictionary.
 
+Malformed values are a stream as well (`malformed_value_cases`): every kind of malformed value C17 knows (ill-typed, out of an enumeration, a key
+that does not exist, a text / key that is not valid Unicode) as one assignment of an otherwise valid configuration, delivered through every
+source the command line has — `-o` (raw bytes in `argv` that are not UTF-8 reach Python as lone surrogates), a configuration file of every
+format, `pydjinni__…` environment variables, the `.env` file — and in combination with a valid value for the same key in a source of other
+precedence. The class is known by construction: the malformed value is in the effective configuration (status 141, the message names the
+key, never a traceback) or a source of higher precedence replaces it (status 0, files generated).
+
 Specification on the implementation's observations (Lean op `c19.spec` = `specExit`): never a traceback; the exit status is 0
 exactly when the API sequence ran through, otherwise the documented code of its first exception (2 for a command line click
 refuses); the first message names the file and the (line, column) of the first reported error — for a configuration file its decoder
@@ -73,6 +80,7 @@ THEOREMS = [_T + n for n in [
     "front_recorded_error_reported", "front_syntax_error_exit", "front_crash_only_unrecorded",
     "malformed_config_exit", "config_directory_or_missing_exit",
     "project_failure_exit", "project_valid_passes_front", "cli_option_value_verbatim",
+    "foldOptions_wf", "unencodable_option_exit", "overridden_file_text_configures",
 ]]
 LEVEL = "proof"
 TRUSTED = [
@@ -991,6 +999,76 @@ def option_value_cases(ctx) -> list[dict]:
     return out
 
 
+# --------------------------------------------------------------------------------------------
+# stream of malformed values x sources x combinations through the real command line
+# --------------------------------------------------------------------------------------------
+# One assignment `key := bad value` of an otherwise valid configuration (`cfgsys.malformed_assignments`: the kinds of malformed values
+# C17 exercises through the API), delivered through a source of the command line: `-o key=value` (a text that is not valid Unicode is
+# given as raw bytes in `argv`: U+DC80+b stands for the byte 0x80+b), the configuration file (YAML / YML / JSON / TOML, escapes like
+# `"\ud800"`), a `pydjinni__…` environment variable (raw bytes likewise), a line of `.env`; the rest of the configuration travels
+# through another source. And in combination: a valid value for the same key in a source of higher precedence (`-o` over file over
+# environment over `.env`) — then the invocation generates —, or of lower precedence — then it is refused all the same.
+
+CLI_SOURCES = ["opts", "file:json", "file:yaml", "file:yml", "file:toml", "env", "ENV", "dotenv"]
+
+
+def malformed_value_cases(ctx) -> list[dict]:
+    trees = [gen_cfg(["cpp"]), gen_cfg(["cpp", "yaml"], report=False), gen_cfg(["cpp", "java", "jni"])]
+    pool = []
+    for ti, tree in enumerate(trees):
+        for rot in range(len(cfgsys.NOT_UNICODE)):
+            r = random.Random(f"{ctx.seed}/c19/malformed/{ti}/{rot}")
+            for a in cfgsys.malformed_assignments(r, tree, rot=rot + ctx.seed):
+                for name, case, expect in c17.malformed_variants(tree, a, rot + ti + ctx.seed, sources=CLI_SOURCES, explicit="opts"):
+                    pool.append((ti, a, name, case, expect))
+    # stratified: every (kind of malformed value, delivery shape, source of the bad value) class in rotation, the texts that are not valid
+    # Unicode first (raw bytes on the command line / in the environment are what only a real invocation exercises)
+    groups: dict = {}
+    for item in pool:
+        ti, a, name, case, expect = item
+        shape = "bad@" if name.startswith("bad@") and "<" not in name else ("bad<good" if name.startswith("bad@") else "good<bad")
+        bad_src = (name.split("<")[0] if shape != "good<bad" else name.split("<")[1]).split("@")[1].split(":")[0].lower()
+        groups.setdefault((not a["kind"].startswith("not-encodable"), a["kind"], shape, bad_src), []).append(item)
+    keys = sorted(groups)
+    random.Random(f"{ctx.seed}/c19/malformed/select").shuffle(keys)
+    keys.sort(key=lambda k: k[0])
+    ctx.stats["malformed_stream_inputs"] = len(pool)
+    ctx.stats["malformed_stream_classes"] = len(groups)
+    budget = ctx.n(40, 600)
+    chosen, depth = [], 0
+    while len(chosen) < budget and any(len(groups[k]) > depth for k in keys):
+        for k in keys:
+            if len(groups[k]) > depth and len(chosen) < budget:
+                chosen.append(groups[k][(depth + ctx.seed) % len(groups[k])] if depth == 0 else groups[k][depth])
+        depth += 1
+    out = []
+    for n, (ti, a, name, case, expect) in enumerate(chosen):
+        files, config = {}, "None"
+        if case.get("file"):
+            config = "mv." + case["file"]["name"].rsplit(".", 1)[1]
+            files[config] = case["file"]["text"]
+        if case.get("dotenv") is not None:
+            files[".env"] = case["dotenv"]
+        texts = case.get("cli_opts") or []
+        leaves = []
+        for t in texts:
+            k, v = t.split("=", 1)
+            leaves.append((tuple(k.split(".")), ref_value(v)))
+        if not all(cfgsys.argv_text(t) for t in texts):
+            continue
+        targets = ["cpp"] if n % 3 else [t for t in ("cpp", "java", "yaml") if t in trees[ti]["generate"]]
+        c = make_case("ok.djinni", config, (texts, leaves), targets, False, extra_env=case.get("env") or {})
+        c["files"] = files
+        c["malformed"] = {"kind": a["kind"], "key": a["named"], "bad": a["bad"], "delivery": name, "expect": expect,
+                          # variables whose text pydantic-settings' environment / `.env` source cannot decode (C17 findings)
+                          "env_refused": cfgsys.undecodable_env(case.get("env")) + cfgsys.undecodable_env(case.get("dotenv_vars"))}
+        c["label"] = f"malformed/{n}/{a['kind']}@{a['named']}/{name}"
+        ctx.count(key=("malformed", a["kind"], name.split("@")[0], tuple(x.split("@")[1].split(":")[0] for x in name.split("<"))), nontrivial=True,
+                  sample={"malformed": a["kind"], "key": a["named"], "delivery": name, "expect": expect})
+        out.append(c)
+    return out
+
+
 def config_file_of(case: dict) -> dict | None:
     """the description of the configuration file an invocation names (None: no file)"""
     cfg = case["sem"]["config"]
@@ -1224,7 +1302,7 @@ def run_case(base: Path, case: dict) -> dict:
     env.update(case.get("env") or {})
     env["COLUMNS"] = "200"
     try:
-        p = subprocess.run([PY, "-m", "pydjinni", *case["args"]], cwd=cli, env=env, capture_output=True, text=True, timeout=120)
+        p = subprocess.run([PY, "-m", "pydjinni", *case["args"]], cwd=cli, env=env, capture_output=True, text=True, errors="replace", timeout=120)
         obs = {"rc": p.returncode, "traceback": "Traceback (most recent call last)" in p.stderr or "Traceback (most recent call last)" in p.stdout,
                "stderr": p.stderr[-600:], "stdout": p.stdout[-2500:], "first_error": first_error_text(p.stdout + p.stderr)}
     except subprocess.TimeoutExpired:
@@ -1414,6 +1492,7 @@ def run(ctx):
     cases += broken_config_cases(ctx)
     cases += project_cases(ctx)
     cases += option_value_cases(ctx)
+    cases += malformed_value_cases(ctx)
     child_env = ctx.child_env()
     for c in cases:
         c["child_env"] = child_env
@@ -1426,7 +1505,7 @@ def run(ctx):
     for r_ in results:
         if r_.get("kind") == "harness-error":
             raise RuntimeError(f"harness error: {r_}")
-    reqs = [model_request(c, o) for c, o in zip(cases, results)]
+    reqs = [cfgsys.sur2pua(model_request(c, o)) for c, o in zip(cases, results)]
     answers = ctx.driver.batch(reqs)
     for a, q in zip(answers, reqs):
         if "error" in a:
@@ -1650,6 +1729,26 @@ def evaluate(ctx, case, obs, m, sq, s, breaks):
         if sem["idl"] not in text or not _re.search(r"at \(\d+, \d+\)", text):
             ctx.report("cli:diagnostic-without-position", f"the message for status {obs['rc']} does not name the IDL file and a (line, column) position",
                        {**rep, "impl": brief(obs), "stdout": obs["stdout"][-600:]})
+    mv = case.get("malformed")
+    if mv:
+        # a malformed value delivered through some source: the class of the effective configuration is known by construction
+        ctx.stat(f"malformed_{mv['expect']}_rc_{obs['rc']}")
+        if mv["expect"] == "refused":
+            if obs["rc"] != 141:
+                accepted = "config:unknown-nested-key-accepted" if mv["kind"] in c17.UNKNOWN_KEY_KINDS else None
+                if accepted is None or obs["rc"] != 0:
+                    ctx.report("cli:malformed-value-status", f"the malformed value at '{mv['key']}' ({mv['kind']}, {mv['delivery']}) is in the effective configuration, but the "
+                               f"command line ended with status {obs['rc']} instead of 141", {**rep, "impl": brief(obs), "first_message": obs["first_error"][:600]})
+                    return
+            elif mv["key"] and not any(k == mv["key"] or k.startswith(mv["key"] + ".") for k in named_keys_of_output(obs)):
+                ctx.report("cli:config-diagnostic-names-no-key:environment" if mv.get("env_refused") else "cli:config-diagnostic-does-not-name-key",
+                           f"the message for the malformed value at '{mv['key']}' ({mv['kind']}, {mv['delivery']}) does not name that key",
+                           {**rep, "impl": brief(obs), "first_message": obs["first_error"][:600]})
+        elif obs["rc"] != 0:
+            ctx.report("cli:overridden-env-value-refused" if mv.get("env_refused") else "cli:overridden-value-refused",
+                       f"the malformed value at '{mv['key']}' ({mv['kind']}) is replaced by a valid one in a source of higher precedence ({mv['delivery']}): the effective "
+                       f"configuration is valid, but the command line ended with status {obs['rc']}", {**rep, "impl": brief(obs), "first_message": obs["first_error"][:600]})
+            return
     pj = case.get("project")
     if pj:
         # a multi-file project: the class of its import graph (known by construction) decides the status — 0 with every declaration
@@ -1699,6 +1798,12 @@ def evaluate(ctx, case, obs, m, sq, s, breaks):
                                    {**rep, "generator": g})
 
 
+def named_keys_of_output(obs) -> list:
+    """the configuration keys the first message names (`'a.b': …` / `in key 'a.b': …`; rich wraps lines anywhere: white space is removed)"""
+    import re
+    return re.findall(r"(?:inkey)?'([^']*)':", obs["first_error"])
+
+
 def s_first_matches(first, rc) -> bool:
     if first["kind"] == "app":
         return first["code"] == rc
@@ -1712,7 +1817,7 @@ def replay(ctx, body):
     case["child_env"] = ctx.child_env()
     cfgsys.register("cli", run_case)
     obs, = cfgsys.run_pool(ctx.tmp, [("cli", case)], workers=1)
-    m = ctx.driver.one(model_request(case, obs))
+    m = ctx.driver.one(cfgsys.sur2pua(model_request(case, obs)))
     sq = spec_request(case, obs)
     s = ctx.driver.one(sq)
     print(json.dumps(brief(obs), indent=1)[:3000])
